@@ -8,6 +8,7 @@
 (* observable events.  The observable events are the ones the cfg-guarded  *)
 (* hook records in the real parser:                                        *)
 (*      <<"G", L>>   entry of generate_ast with precedence L               *)
+(*      <<"L", L>>   one iteration of the operator loop of that frame      *)
 (*      <<"T", k>>   get_next_token made k the current token               *)
 (* (`evs` is the history of them).  The environment supplies the next      *)
 (* token on demand, so TLC explores the tree of viable prefixes.           *)
@@ -80,10 +81,11 @@ GenAfterNum == /\ Top.p = "gen" /\ Top.st = "num" /\ ret # NoRet
 GenLoop == /\ Top.p = "gen" /\ Top.st = "loop" /\ ret = NoRet
            /\ IF Top.L < Prec(cur)
               THEN /\ ticks' = ticks + 1
+                   /\ evs' = Append(evs, <<"L", Top.L>>)
                    /\ stack' = Append(Repl([Top EXCEPT !.st = "conv"]), FConv(cur, Top.left))
                    /\ UNCHANGED ret
-              ELSE /\ Return(ROk(Top.left)) /\ UNCHANGED ticks
-           /\ UNCHANGED <<hist, status, result, evs>>
+              ELSE /\ Return(ROk(Top.left)) /\ UNCHANGED <<ticks, evs>>
+           /\ UNCHANGED <<hist, status, result>>
 GenAfterConv == /\ Top.p = "gen" /\ Top.st = "conv" /\ ret # NoRet
                 /\ IF ret.ok THEN stack' = Repl([Top EXCEPT !.st = "loop", !.left = ret.node]) /\ ret' = NoRet
                              ELSE Return(ret)
